@@ -112,6 +112,8 @@ type Sim struct {
 	Sites       map[string]int
 	lockOrder   uint64
 	Probes      map[string]int
+	dialer      DialFunc
+	elapsed     time.Duration
 	Faults      map[string]int
 }
 
@@ -670,11 +672,20 @@ func Lock(m *sync.Mutex, site string) {
 }
 
 func Unlock(m *sync.Mutex) {
-	m.Unlock()
 	s := current()
 	if s == nil {
+		m.Unlock()
 		return
 	}
+	if t := s.self(); t != nil && t.killed {
+		// a reaped task unwinding through deferred unlocks: it may have been
+		// parked in CondWait (mutex released) — never unlock an unlocked mutex
+		if m.TryLock() {
+			m.Unlock()
+			return
+		}
+	}
+	m.Unlock()
 	s.mu.Lock()
 	if w := s.mwait[m]; len(w) > 0 {
 		for _, t := range w {
@@ -751,8 +762,17 @@ func (s *Sim) rwWake(m *sync.RWMutex) {
 }
 
 func RWUnlock(m *sync.RWMutex) {
+	s := current()
+	if s != nil {
+		if t := s.self(); t != nil && t.killed {
+			if m.TryLock() {
+				m.Unlock()
+				return
+			}
+		}
+	}
 	m.Unlock()
-	if s := current(); s != nil {
+	if s != nil {
 		s.rwWake(m)
 	}
 }
@@ -1166,6 +1186,7 @@ func (s *Sim) loop(root func(*Sim)) {
 		t.wake <- struct{}{}
 	}
 done:
+	s.elapsed = time.Since(s.start)
 	// tear down: reap everything that can be reaped
 	s.mu.Lock()
 	s.stopping = true
@@ -1213,3 +1234,6 @@ done:
 		reap.wake <- struct{}{}
 	}
 }
+
+// Now0 is the simulated duration of the finished run.
+func (s *Sim) Now0() time.Duration { return s.elapsed }
